@@ -231,7 +231,7 @@ Proof.
   - simpl. unfold blit. simpl. rewrite Nat.add_0_r, firstn_skipn. reflexivity.
   - unfold len in *. simpl length in *. cbn [fill_bytes]. unfold set.
     assert (p <? B = true) as -> by lia. cbn [bind].
-    assert (Hp1 : p + 1 + N.of_nat (length r) <= B) by (clear IH; lia).
+    assert (Hp1 : p + 1 + N.of_nat (length r) <= B) by lia.
     rewrite IH; [|now rewrite upd_length|exact Hp1].
     f_equal. unfold blit.
     replace (N.to_nat (p + 1)) with (S (N.to_nat p)) by lia.
@@ -432,7 +432,6 @@ Proof.
       * intros b'' Hb''. unfold Rep; cbn [set_buf size count buf head tail]. split; [destruct Hb'' as [-> _]; destruct Hso as [-> _]; exact HL|].
         split; [exact HB|]. left. cbn [size count buf head tail].
         split; [apply SegE_le in Hseg; lia|]. split; [lia|].
-        replace (head s + 4 + sz) with (head s + 4 + sz) by lia.
         eapply SegE_app with (c := head s).
         -- eapply SegE_agree; [exact Hseg|].
            eapply agree_trans; eapply same_out_agree; eauto; lia.
